@@ -33,14 +33,21 @@ func externalKind(fn *ssa.Function) string {
 		case pkg == "strconv" && strings.HasPrefix(name, "Append"):
 			return "elems"
 		case pkg == "bytes" && fn.Signature.Recv() != nil:
-			return "" // bytes.Buffer methods: receiver state is not one of our heap vars, but be safe
+			return "pure" // bytes.Buffer / bytes.Reader methods only touch their own (unmodelled) state
 		case pkg == "slices" || pkg == "strings" && fn.Signature.Recv() != nil:
 			return "elems"
 		}
 		return "pure"
+	case "log":
+		switch name {
+		case "Printf", "Print", "Println", "Panicf", "Panic", "Panicln", "Fatalf", "Fatal", "Fatalln":
+			return "pure"
+		}
 	case "fmt":
 		switch name {
-		case "Sprintf", "Errorf", "Sprint", "Sprintln":
+		case "Sprintf", "Errorf", "Sprint", "Sprintln", "Fprintf", "Fprint", "Fprintln":
+			// assumption: formatting verbs call side-effect-free String/Error methods and
+			// io.Writer implementations do not write interpreter state
 			return "pure"
 		}
 	case "os":
@@ -246,13 +253,16 @@ func (fr *Frame) call(st *State, instr ssa.Instruction, c *ssa.CallCommon, v ssa
 		setResult(fr.contractCall(st, tc, nil, targs, nil, name, instr.Pos()))
 		return true
 	}
-	// unknown callee: havoc
-	vc.note("uncontracted call havocs the heap: " + name)
-	if vc.con != nil && vc.con.ModSet && !fr.spec {
-		fr.oblige(st, "frame", "call to uncontracted "+name+" inside a function with a modifies clause", "false", instr.Pos())
+	// uncontracted callee: havoc its inferred write set (or everything)
+	inferredOK := false
+	if callee != nil && isRepoFunc(callee) && len(callee.Blocks) > 0 {
+		inferredOK = !vc.eng.inferredEffects(callee).all
 	}
-	fr.mayPanic(st, nil, nil, nil, name, instr.Pos())
-	vc.havocAll(st, name)
+	if vc.con != nil && vc.con.ModSet && !fr.spec && !inferredOK {
+		fr.oblige(st, "frame", "call to "+name+" (unknown write set) inside a function with a modifies clause", "false", instr.Pos())
+	}
+	fr.mayPanicCallee(st, callee, name, instr.Pos())
+	vc.havocCallee(st, callee, name)
 	if v != nil {
 		fr.havocVal(st, v)
 		fr.recordRet(name, v)
@@ -454,6 +464,9 @@ func (fr *Frame) contractCall(st *State, con *Contract, callee *ssa.Function, ar
 		n := vc.freshConst(fr.prefix+"res_"+sanitize(name), vc.sortOf(rt))
 		vc.introduce(st, n, rt)
 		rv := Val{T: n, Ty: rt}
+		if con.ResultFuncPure {
+			rv.PureFn = true
+		}
 		res = append(res, rv)
 		binds[fmt.Sprintf("result%d", i)] = rv
 		if i == 0 {
@@ -645,8 +658,7 @@ func (vc *VC) modLocation(con *Contract, callee *ssa.Function, m string, binds m
 func (fr *Frame) applyModifies(st, pre *State, con *Contract, callee *ssa.Function, binds map[string]Val) {
 	vc := fr.vc
 	if !con.ModSet {
-		vc.note("contract without modifies clause havocs the heap: " + con.Target)
-		vc.havocAll(st, con.Target)
+		vc.havocCallee(st, callee, con.Target)
 		return
 	}
 	whole := map[string]bool{}
@@ -712,11 +724,11 @@ func (fr *Frame) mayPanic(pre *State, con *Contract, callee *ssa.Function, binds
 		return
 	}
 	ps := pre.clone()
-	ps.reach = vc.define("panicedge", "Bool", pre.reach)
+	ps.reach = vc.define("panicedge", "Bool", smtAnd(pre.reach, vc.panicChoice()))
 	if con != nil && con.ModSet {
 		fr.applyModifies(ps, pre, con, callee, binds)
 	} else {
-		vc.havocAll(ps, name)
+		vc.havocCallee(ps, callee, name)
 	}
 	if con != nil {
 		for _, en := range con.OnPanic {
@@ -735,7 +747,7 @@ func (fr *Frame) panicIf(st *State, cond Term, what string) {
 		return
 	}
 	ps := st.clone()
-	ps.reach = vc.define("panicedge", "Bool", smtAnd(st.reach, cond))
+	ps.reach = vc.define("panicedge", "Bool", smtAnd(st.reach, cond, vc.panicChoice()))
 	vc.panicSites = append(vc.panicSites, what)
 	vc.panicStates = append(vc.panicStates, ps)
 }
@@ -838,6 +850,10 @@ func (fr *Frame) deferredCall(st *State, d *deferRec, panicking bool) {
 			fr.inDefer--
 			return
 		}
+	}
+	if d.fnv.PureFn {
+		vc.note("assumed: the func value returned by a `result-func-pure` contract modifies nothing when called (" + name + ")")
+		return
 	}
 	vc.note("deferred call to uncontracted " + name + " havocs the heap")
 	vc.havocAll(st, name)
@@ -1288,4 +1304,18 @@ func extName(fn *ssa.Function) string {
 		name += types.TypeString(r.Type(), func(*types.Package) string { return "" }) + "_"
 	}
 	return "ext_" + sanitize(name+fn.Name())
+}
+
+// mayPanicCallee: panic edge of a call to an uncontracted callee.
+func (fr *Frame) mayPanicCallee(pre *State, callee *ssa.Function, name string, pos token.Pos) {
+	fr.mayPanic(pre, nil, callee, nil, name, pos)
+}
+
+// panicChoice makes the panic edges of a function mutually exclusive: a run
+// panics at (at most) one site.  Without it the guarded equalities of the
+// merged panic state would constrain the normal paths as well.
+func (vc *VC) panicChoice() Term {
+	sel := vc.declConst("panicSel", "Int")
+	vc.nPanicEdges++
+	return "(= " + sel + " " + fmt.Sprint(vc.nPanicEdges) + ")"
 }
